@@ -733,6 +733,20 @@ func (fv *FnV) arith(st *State, op token.Token, a, b Val, ty types.Type, n ast.N
 		t = fmt.Sprintf("(- %s %s)", a.T, b.T)
 	case token.MUL:
 		t = fmt.Sprintf("(* %s %s)", a.T, b.T)
+		if _, la := parseIntLit(a.T); !la && !fv.spec && !fv.noName {
+			if _, lb := parseIntLit(b.T); !lb && len(a.T)+len(b.T) < 400 {
+				// product-bound hint (a true fact about integers, instantiated for this product):
+				// |x|,|y| < 2^31 ==> |x*y| < 2^62.  Linear arithmetic over the product term then
+				// settles the usual "two guarded products fit into int64" obligations.
+				if fv.mulHints == nil {
+					fv.mulHints = map[string]bool{}
+				}
+				if !fv.mulHints[t] {
+					fv.mulHints[t] = true
+					fv.decls = append(fv.decls, fmt.Sprintf("(assert (=> (and (< (- 2147483648) %s) (< %s 2147483648) (< (- 2147483648) %s) (< %s 2147483648)) (and (< (- 4611686018427387904) %s) (< %s 4611686018427387904))))", a.T, a.T, b.T, b.T, t, t))
+				}
+			}
+		}
 	case token.QUO:
 		if !fv.spec {
 			fv.oblige(st, "safe.div", text, fmt.Sprintf("(not (= %s 0))", b.T), n, nil)
